@@ -180,3 +180,53 @@ Proof.
   unfold parse_jwe_compact. cbn zeta. destruct (starts_with_brace (strip_ws s)); [discriminate|].
   destruct (split_dot (strip_ws s)) as [|p0 [|p1 [|p2 [|p3 [|p4 [|p5 r]]]]]]; try discriminate. reflexivity.
 Qed.
+
+(* ------------------------------------------------------------------ Concat KDF input layout *)
+Lemma be4_length n : length (be4 n) = 4%nat.
+Proof. reflexivity. Qed.
+
+Lemma len_prefixed_app_inj d d' r r' :
+  lenN d < 4294967296 -> lenN d' < 4294967296 ->
+  len_prefixed d ++ r = len_prefixed d' ++ r' -> d = d' /\ r = r'.
+Proof.
+  intros L L' E. unfold len_prefixed, u32 in E. rewrite !N.mod_small in E by lia.
+  rewrite <- !app_assoc in E. apply app_inv_len_head in E; [|reflexivity]. destruct E as [E4 E].
+  apply be4_inj in E4; [|lia|lia].
+  apply app_inv_len_head in E; [exact E|]. rewrite !lenN_length in E4. lia.
+Qed.
+
+(* AlgorithmID, PartyUInfo, PartyVInfo are length-prefixed and the output length is a fixed
+   4-byte field: the KDF's OtherInfo determines all four (fields below 2^32 bytes, sizes below 2^29) *)
+Lemma kdf_info_injective alg apu apv size alg' apu' apv' size' :
+  lenN alg < 4294967296 -> lenN apu < 4294967296 -> lenN apv < 4294967296 ->
+  lenN alg' < 4294967296 -> lenN apu' < 4294967296 -> lenN apv' < 4294967296 ->
+  size < 536870912 -> size' < 536870912 ->
+  kdf_info alg apu apv size = kdf_info alg' apu' apv' size' ->
+  alg = alg' /\ apu = apu' /\ apv = apv' /\ size = size'.
+Proof.
+  intros La Lu Lv La' Lu' Lv' Ls Ls' E. unfold kdf_info in E.
+  apply len_prefixed_app_inj in E; try assumption. destruct E as [-> E].
+  apply len_prefixed_app_inj in E; try assumption. destruct E as [-> E].
+  apply len_prefixed_app_inj in E; try assumption. destruct E as [-> E].
+  rewrite !app_nil_r in E. unfold u32 in E. rewrite !(N.mod_small size), !(N.mod_small size') in E by lia.
+  rewrite !N.mod_small in E by lia. apply be4_inj in E; [|lia|lia].
+  repeat split; try reflexivity. lia.
+Qed.
+
+(* successive rounds hash different inputs: the 32-bit big-endian counter comes first *)
+Lemma kdf_round_input_injective i j z info :
+  i < 4294967296 -> j < 4294967296 -> kdf_round_input i z info = kdf_round_input j z info -> i = j.
+Proof.
+  intros Hi Hj E. unfold kdf_round_input, u32 in E. rewrite !N.mod_small in E by lia.
+  apply app_inv_len_head in E; [|reflexivity]. destruct E as [E _]. apply be4_inj in E; lia.
+Qed.
+
+(* one hash block suffices when the key is not longer than the hash: the key is the first
+   [size] bytes of H(00000001 || Z || OtherInfo) *)
+Lemma kdf_read_one_round H z info size fuel :
+  0 < size -> size <= lenN (H (kdf_round_input 1 z info)) ->
+  kdf_read H (S fuel) 1 z info size = firstn (N.to_nat size) (H (kdf_round_input 1 z info)).
+Proof.
+  intros H0 H1. cbn [kdf_read]. destruct (N.eqb_spec size 0); [lia|].
+  destruct (N.leb_spec size (lenN (H (kdf_round_input 1 z info)))); [reflexivity|lia].
+Qed.
